@@ -465,6 +465,8 @@ class Bin(Factory, Container):
             # x < high, but the quotient can round up to num for x immediately below high: stay in the last bin
             # (as bin() does for the row-wise fill)
             q[np.logical_and(inrange, q >= self.num)] = self.num - 1
+            # ... and a row outside [low, high) belongs to a flow, never to a bin, whatever its quotient rounds to
+            q[np.logical_not(inrange)] = -1
 
             for index, value in enumerate(self.values):
                 np.not_equal(q, index, selection)
